@@ -30,6 +30,7 @@ public:
   std::u8string fullName{};
   bool saved{ true };
   bool open{ true };
+  uint32_t writes{ 0 };   // how many times an operation result was written into this document
   MemManager* owner{ nullptr };
 
   MemSource() { schema.AddObserver(*this); }
@@ -47,6 +48,7 @@ public:
       return false;
     }
     schema = *rsData;
+    ++writes;
     return true;
   }
   [[nodiscard]] const src::DataStream* ReadData() const override { return &schema; }
@@ -350,6 +352,7 @@ json Snapshot() {
       if (doc != nullptr && !handle->empty()) {
         p["doc_open"] = doc->open;
         p["doc_saved"] = doc->saved;
+        p["doc_writes"] = doc->writes;
         p["data"] = SchemaSummary(doc->schema);
         const auto it = mgr.announced.find(MemManager::Name(doc->fullName));
         if (it != mgr.announced.end()) {
